@@ -1,6 +1,8 @@
 """C13 configuration for bin/check."""
 
-CFG = {'assumptions': [],
+CFG = {'assumptions': ['usize arithmetic of SchemaMath does not overflow; func_cols >= 1',
+                 'the scratch row handed to the merge callback is empty (core-relations clears it after '
+                 'every call)'],
  'corr_is_violation': True,
  'harness': [{'bin': 'h_egg', 'extra': ['--prop', 'C13'], 'name': 'h_egg', 'prefix': 'cases_egg'},
              {'bin': 'h_egg',
@@ -14,14 +16,37 @@ CFG = {'assumptions': [],
               'the correspondence sessions only',
  'model_targets': ['Egg/Rules.vo'],
  'proof_targets': ['Props/C13.vo'],
- 'theorem_backed': 'regenerated source facts: the frontend constrains every rule-body table atom to non-subsumed rows (= the model matcher filter) and the extractor scans are guarded by !row.subsumed; subsume flag is OR under merge (translated combine_subsumed), sticky through any insert '
-                   'sequence and through rebuild in either order; rule matching never sees subsumed rows at '
-                   'any nesting depth; eval (check) and rebuild (congruence) ignore the flag; subsume/delete '
-                   'frames',
- 'tier_a': ['UFSeq', 'MergeArms', 'BridgeFns', 'Facts.subsume_guards'],
+ 'theorem_backed': 'regenerated source facts: the frontend constrains every rule-body table atom to '
+                   'non-subsumed rows (= the model matcher filter) and the extractor scans are guarded by '
+                   '!row.subsumed; subsume flag is OR under merge (translated combine_subsumed), sticky '
+                   'through any insert sequence and through rebuild in either order; rule matching never '
+                   'sees subsumed rows at any nesting depth; eval (check) and rebuild (congruence) ignore '
+                   'the flag; subsume/delete frames; REGENERATED merge callback (gen/SchemaFns.v from '
+                   'MergeFn::to_callback): for every arity and every merge function the row a table with '
+                   'subsumption holds after the callback carries combine_subsumed(cur flag, new flag) = OR, '
+                   'a flag change alone reports "changed" (c13_callback_flag_sticky, c13_combineN_is_or); '
+                   'the subsume column is distinct from keys / value / timestamp and inside the row '
+                   '(c13_subsume_column)',
+ 'tier_a': ['UFSeq',
+            'MergeArms',
+            'BridgeFns',
+            'Facts.subsume_guards',
+            'SchemaFns.SchemaMath',
+            'SchemaFns.combine_subsumed',
+            'SchemaFns.to_callback',
+            'SchemaFns.ResolvedMergeFn',
+            'SchemaFns.run'],
  'trusted': ['translator /verif/translator: gen/UFSeq.v (union-find), gen/MergeArms.v (UnionId=min, Old, '
              'New), gen/BridgeFns.v (combine_subsumed) are regenerated from the source on every run and used '
              'by Egg/Model.v',
              'hand-written model coq/Egg/Model.v + Egg/Rules.v (naive matching, term-level commands) tied to '
              'the engine by the correspondence check h_egg (observations after every command: class vector '
-             'of probe terms up to depth 3, table sizes, subsumed counts, int-valued probes)']}
+             'of probe terms up to depth 3, table sizes, subsumed counts, int-valued probes)',
+             'translator module x_schema.rs: gen/SchemaFns.v is regenerated from egglog-bridge/src/lib.rs on '
+             'every run: SchemaMath column arithmetic (num_keys, table_columns, ret_val_col, ts_col, '
+             'subsume_col) and write_table_row, SUBSUMED/NOT_SUBSUMED/combine_subsumed over N, the closure '
+             'body of MergeFn::to_callback (statement by statement, mutable variables threaded), the enum '
+             'ResolvedMergeFn and every arm of ResolvedMergeFn::run (structural Fixpoint; recursive calls '
+             'keep the source argument order); usize +/- are unbounded N / truncated (theorems carry 1 <= '
+             'func_cols); the ExecutionState is an effect log with oracle results (Egg/SchemaPrelude.v, '
+             'hand-written semantics of call_external_func / stage_insert / lookup_or_insert)']}
